@@ -119,7 +119,7 @@ def check_C01(run):
                      "trace recorder ordering discipline (harness/tr)"])
 
 
-REGSETS = [("TRegA", "MCReg", "a.b,a.b.c"), ("TRegB", "MCRegB", "a,a.b.c.d,a.U1"), ("TRegC", "MCRegC", "")]
+REGSETS = [("TRegA", "MCReg", "a.b,a.b.c"), ("TRegB", "MCRegB", "a,a.b.c.d,a.U1,a.B"), ("TRegC", "MCRegC", "")]
 
 
 def check_C04(run):
